@@ -38,7 +38,11 @@ CREATING = {"create", "wopen", "mkdir", "rename", "link"}
 def shards(tier, seed):
     n = ncpu()
     per = 20 if tier == "quick" else 640
-    return [(per, s) for s in split_seeds(seed * 1000 + 18, n)]
+    out = [(per, s) for s in split_seeds(seed * 1000 + 18, n)]
+    # identifiers are arbitrary Unicode whatever the process locale: a slice runs in a child interpreter whose
+    # preferred encoding is ASCII
+    out.append((12 if tier == "quick" else 200, seed * 1000 + 181, "spawn-ascii-locale"))
+    return out
 
 
 def min_required(tier):
@@ -117,7 +121,40 @@ def script(rng, ids, fmts):
     return ops
 
 
-def run_shard(n, sub_seed):
+def run_in_ascii_locale(n, sub_seed):
+    import json
+    import subprocess
+    import sys
+    from ..common import VERIF_ROOT, SRC
+    res = ShardResult()
+    code = ("import sys, json; sys.path.insert(0, %r); from hsverif.common import load_repo; load_repo(); "
+            "from hsverif.props import C18; r = C18.run_shard(%d, %d, 'inside'); "
+            "print('RESULT ' + json.dumps({'ev': r.evaluations, 'viol': [[s, {k: repr(v)[:300] for k, v in w.items()}] for s, w in r.violations], "
+            "'counters': {k: v for k, v in r.counters.items() if isinstance(v, int)}, 'n': len(r.distinct), "
+            "'enc': __import__('locale').getpreferredencoding(False)}))" % (VERIF_ROOT, n, sub_seed))
+    env = dict(os.environ, LC_ALL="C", LANG="C", PYTHONUTF8="0", PYTHONCOERCECLOCALE="0", HSVERIF_SRC=SRC,
+               PYTHONIOENCODING="ascii:backslashreplace")
+    p = subprocess.run([sys.executable, "-c", code], capture_output=True, text=True, timeout=1800, env=env)
+    line = [ln for ln in p.stdout.splitlines() if ln.startswith("RESULT ")]
+    if p.returncode != 0 or not line:
+        res.inconclusive.append("child interpreter in the ASCII locale failed: " + (p.stderr or "")[-400:])
+        return res
+    d = json.loads(line[-1][7:])
+    res.evaluations = d["ev"]
+    for i in range(d["n"]):
+        res.distinct.add(f"ascii-locale:{sub_seed}:{i}")
+    for sig, wit in d["viol"]:
+        sig["locale"] = "ascii"
+        res.violation(sig, wit)
+    res.count("steps_in_ascii_locale", d["ev"])
+    for k, v in d["counters"].items():
+        res.count(k, v)
+    return res
+
+
+def run_shard(n, sub_seed, locale_mode=None):
+    if locale_mode == "spawn-ascii-locale":
+        return run_in_ascii_locale(n, sub_seed)
     res = ShardResult()
     rng = random.Random(sub_seed)
     contents = {k: make_content(v["cseed"], v["size"]) for k, v in SPEC.items()}
